@@ -139,6 +139,7 @@ def cif_unit(u, res):
     return res
 
 
+@symnp.outside_session
 def replay_cif(lid, uv):
     import phonopy.phonon.thermal_displacement as td
     A = np.array(LATTICES[lid], dtype=float)
@@ -238,15 +239,15 @@ def tdm_unit(u, res):
     res.queries.append({"name": "all mode weights w_k >= 0, hence U is positive semi-definite [ground fact]", "verdict": "unsat" if ok else "sat", "seconds": 0.0, "nvars": 0, "nontrivial": False, "hash": "ground"})
     Ut = np.transpose(np.asarray(U, dtype=object), (0, 1, 3, 2))
     v, m2, idx = assert_equal(res, "U symmetric", symnp.unwrap(U), symnp.unwrap(Ut), Abox, tol=1e-12, chunk=6)
-    report(res, v, key + ":symmetric", "thermal displacement matrices are not symmetric", None, m2)
+    report(res, v, key + ":symmetric", "thermal displacement matrices are not symmetric", (lambda: replay_tdm(variant, harness.model_floats(m2, syms))) if m2 is not None else None, m2)
     diag = [U[t, a, c, c] for t in range(nT) for a in range(2) for c in range(3)]
     v, m3, idx = assert_equal(res, "Cartesian diagonal of U == ThermalDisplacements.run (%d temperatures)" % nT, symnp.unwrap(symnp.symarray(diag)), symnp.unwrap(msd), Abox, tol=1e-9, chunk=6)
-    report(res, v, key + ":diag", "mean-square displacements differ from the diagonal of the displacement matrices", None, m3)
+    report(res, v, key + ":diag", "mean-square displacements differ from the diagonal of the displacement matrices", (lambda: replay_tdm(variant, harness.model_floats(m3, syms))) if m3 is not None else None, m3)
     for p, pr in zip(pdirs, proj):
         ph = p / np.linalg.norm(p)
         quad = [np.dot(ph, np.dot(np.asarray(U[t, a], dtype=object), ph)) for t in range(nT) for a in range(2)]
         v, m4, idx = assert_equal(res, "projected displacements along %s == p^T U p" % p.tolist(), symnp.unwrap(symnp.symarray(quad)), symnp.unwrap(pr), Abox, tol=1e-9, chunk=6)
-        report(res, v, key + ":proj", "projected mean-square displacements differ from p^T U p", None, m4)
+        report(res, v, key + ":proj", "projected mean-square displacements differ from p^T U p", (lambda mm=m4: replay_tdm(variant, harness.model_floats(mm, syms))) if m4 is not None else None, m4)
     v2, _, _ = assert_equal(Result("t"), "twin", symnp.unwrap(U), [t * Fraction(101, 100) if isinstance(t, z3.ExprRef) else t for t in symnp.unwrap(want)], Abox, tol=1e-9, chunk=6)
     res.twins.append({"name": "U vs 1.01 x formula is refutable", "verdict": v2})
     res.samples.append({"unit": res.unit, "symbols": len(syms), "frequencies": [f.tolist() for f in freqs], "temperatures": list(map(float, temps)), "window": [fmin, fmax]})
@@ -264,7 +265,9 @@ def report(res, v, key, what, replay_fn, m):
         res.notes.append("inconclusive " + key)
 
 
+@symnp.outside_session
 def replay_tdm(variant, vals):
+    """all sub-assertions of the tdm unit on the real classes with ordinary arrays"""
     import phonopy.phonon.thermal_displacement as td
     masses = [20.0, 55.0]; nb = 6
     freqs = [np.array([-0.5, 0.004, 1.3, 2.9, 7.1, 12.0]), np.array([0.3, 1.1, 1.1, 4.0, 9.5, 15.5])]
@@ -275,7 +278,8 @@ def replay_tdm(variant, vals):
         o = iq * 2 * nb * nb
         E = (vals[o:o + nb * nb] + 1j * vals[o + nb * nb:o + 2 * nb * nb]).reshape(nb, nb)
         Es.append(E); items += [(freqs[iq], E), (freqs[iq], E.conj())]
-    obj = td.ThermalDisplacementMatrices(FakeMesh(masses, items, [2, 2, 1]), freq_min=fmin, freq_max=fmax)
+    mesh = FakeMesh(masses, items, [2, 2, 1])
+    obj = td.ThermalDisplacementMatrices(mesh, freq_min=fmin, freq_max=fmax)
     obj.temperatures = temps
     obj.run()
     U = obj.thermal_displacement_matrices
@@ -289,8 +293,21 @@ def replay_tdm(variant, vals):
                         continue
                     e = Es[iq][3 * a:3 * a + 3, nu]
                     want[it, a] += q2_oracle(f, float(T), masses[a]) / 4.0 * 2 * np.outer(e, e.conj()).real
-    d = float(np.abs(U - want).max())
-    return d > 1e-5 * float(np.abs(want).max()), "thermal displacement matrices differ from (hbar/2Nm) sum (1+2n)/omega Re(e e^+) by %.3g A^2" % d, {"variant": variant, "e": vals.tolist()}
+    scale = max(float(np.abs(want).max()), 1e-12)
+    d_formula = float(np.abs(U - want).max()) / scale
+    d_sym = float(np.abs(U - np.transpose(U, (0, 1, 3, 2))).max()) / scale
+    tdo = td.ThermalDisplacements(mesh, freq_min=fmin, freq_max=fmax); tdo.temperatures = temps; tdo.run()
+    diag = np.array([[U[t, a, c, c] for a in range(2) for c in range(3)] for t in range(len(obj.temperatures))])
+    d_diag = float(np.abs(diag - np.array(tdo.thermal_displacements)).max()) / scale
+    d_proj = 0.0
+    for p in (np.array([1.0, 2.0, -0.5]), np.array([0.0, 0.0, 3.0])):
+        tp = td.ThermalDisplacements(mesh, projection_direction=p, freq_min=fmin, freq_max=fmax); tp.temperatures = temps; tp.run()
+        ph_ = p / np.linalg.norm(p)
+        quad = np.array([[ph_ @ U[t, a] @ ph_ for a in range(2)] for t in range(len(obj.temperatures))])
+        d_proj = max(d_proj, float(np.abs(quad - np.array(tp.thermal_displacements)).max()) / scale)
+    worst = max(d_formula, d_sym, d_diag, d_proj)
+    return worst > 1e-5, ("thermal displacement matrices (relative deviations): from (hbar/2Nm) sum (1+2n)/omega Re(e e^+) %.3g, asymmetry %.3g, "
+                          "diagonal vs mean-square displacements %.3g, p^T U p vs projected displacements %.3g" % (d_formula, d_sym, d_diag, d_proj)), {"variant": variant, "e": vals.tolist()}
 
 
 # ------------------------------------------------------------------ random displacements
@@ -443,7 +460,7 @@ def rd_unit(u, res):
         for k in range(S):
             lin = lin + cols[k].astype(object) * symnp.SR(rs[k])
         v, m, idx = assert_equal(res, "u(r) == sum_m r_m u(e_m) for all r (T = %g K, %s)" % (T0, df), symnp.unwrap(ur), symnp.unwrap(lin), box(rs), tol=1e-10, chunk=24)
-        report(res, v, key + ":linear", "random displacements are not the linear image of the normal variates", None, m)
+        report(res, v, key + ":linear", "random displacements are not the linear image of the normal variates", lambda: replay_rd(gid, sid, df), m)
         # --- ground facts at concrete temperatures
         facts = []
         for T in (0.0 if df == "quantum" else 5.0, 300.0):
@@ -474,6 +491,7 @@ def rd_unit(u, res):
     return res
 
 
+@symnp.outside_session
 def replay_rd(gid, sid, df):
     """concrete: M M^T and uu against the canonical covariance at 300 K on the compiled code"""
     ph, fc, rd = make_rd(gid, sid, df)
@@ -537,8 +555,17 @@ def sigma_unit(u, res):
                     want.append(0.0); continue
                 extra.append(E >= 1 + 1e-4)
                 want.append((symnp.SR(E) + 1.0) / (symnp.SR(E) - 1.0) * (pu.Hbar * pu.EV / (2 * w * pu.AMU) * 1e20))
+        # every exp application whose argument was proved to be hbar omega / k_B T becomes a free variable E >= 1 + 1e-4
+        # (a sound relaxation: unsat for all E implies unsat for E = exp(.); a sat model is replayed numerically at its T)
+        subs = []
+        for kk, (arg, r) in enumerate(apps.get("exp", [])):
+            subs.append((r, z3.Real("E_%d" % kk)))
+        gl = [z3.substitute(harness.to_term(t), *subs) if subs and isinstance(harness.to_term(t), z3.ExprRef) else t for t in symnp.unwrap(symnp.symarray(got))]
+        wl = [z3.substitute(harness.to_term(t), *subs) if subs and isinstance(harness.to_term(t), z3.ExprRef) else t for t in symnp.unwrap(symnp.symarray(want))]
+        extra = [z3.substitute(c, *subs) for c in extra] if subs else extra
+        extra += [e <= 10 ** 9 for _, e in subs]
         v, m, idx = assert_equal(res, "sigma^2 == %s, zero at or below the cutoff (T in [2,2000], 6 frequencies)" % ("k_B T / omega^2" if df == "classical" else "hbar (1+2n) / (2 omega)"),
-                                 symnp.unwrap(symnp.symarray(got)), symnp.unwrap(symnp.symarray(want)), A + side + extra, tol=1e-9, chunk=1, logic="QF_NRA")
+                                 gl, wl, A + side + extra, tol=1e-9, chunk=1)
     key = "%s:sigma:%s" % (PID, df)
     if v == "sat":
         Tv = float(model_value(m, Tt))
